@@ -148,14 +148,21 @@ def kview_r(line):
 def kview_r_seq(line):
     return " ; ".join(x.strip() for x in line.split(" ; ")[:2])
 
+def kview_sess(line, case):
+    """W sessions: results + sink summaries; R sessions: results (+ consumption when sequential)"""
+    parts = [x.strip() for x in line.split(" ; ")]
+    if case.startswith("R "):
+        return " ; ".join(parts[:2]) if case.split(" ")[1] == "1" else parts[0]
+    return " ; ".join(parts[:2])
+
 def nontrivial_sess(c, il):
     return "/ok" in il or " ok" in il or il.startswith("ok")
 
 def FW(fam, **kw):
-    return dict(dict(family=fam, variant="asm", kview=kview_w, nontrivial=nontrivial_sess), **kw)
+    return dict(dict(family=fam, variant="asm", kview=kview_sess, nontrivial=nontrivial_sess), **kw)
 
 def FR(fam, **kw):
-    return dict(dict(family=fam, variant="asm", kview=kview_r, nontrivial=nontrivial_sess), **kw)
+    return dict(dict(family=fam, variant="asm", kview=kview_sess, nontrivial=nontrivial_sess), **kw)
 
 j_c02w = j_notes(r"ROUNDTRIP-FAIL\S*", "frame round trip failed", "Reader restores the input, clean EOF")
 j_c02r = j_notes(r"WRONG-CONTENT", "Reader did not deliver exactly the content", "content then io.EOF")
@@ -184,15 +191,90 @@ _K64 = "full under the documented assumption that the content is shorter than 2^
 T_C05 = T("C05", "c05_writeTo_partial", "c05_read_partial", kind=_K64) + T("C05", "c05_legacy", "c05_legacy_exact", "c05_legacy_consumed",
           "legacyDictWitness_rejected", "legacyEmptyBlockWitness_rejected")
 T_C06 = T("C06", "c06_truncated")
+T_C08 = T("C08", "W.order", "W.order_final", "W.order_fail", "W.ownership", "W.progress", "W.terminates", "W.noleak_enabled", "W.can_finish",
+          "R.order", "R.order_final", "R.error_latched", "R.progress", "R.terminates", "R.noleak", "R.can_finish") \
+    + T("C08", "W.noleak_partial", kind="partial: when Close returns a worker may still be between the close of its channel and its wake-up (it is runnable: W.noleak_enabled)") \
+    + T("C08", "W.noleak_false", kind="counterexample to the literal 'every worker already woke up' (a schedule where Close returns first)")
 T_C09 = T("C09", "idx_valid", "c09_writer", "c09_writer_fast", "c09_clean") + T("C09full", "hcCorrect", "c09_writer_all", "c09_clean_all", ns="C09")
 T_C19 = T("C19", "c19_accept_iff", "c19_bad_checksum", "c19_bad_block_size", "c19_size", "c19_bad_magic", "c19_spec", "c19_reader_size")
 
+
+def x_c14_groups(run):
+    """C14 (frame level): the same stream and options through different chunkings, concurrency levels and
+    perturbed schedules must give byte-identical frames (real code vs real code)."""
+    import random
+    from .common import Violation
+    rnd = random.Random(run.seed * 7 + 1)
+    groups, cases = [], []
+    n = 25 if run.tier == "quick" else 300
+    for g in range(n):
+        total = rnd.choice([0, 1, 65535, 65536, 65537, 131072, 200000, 262144 + 17])
+        kind, seed = rnd.choice([0, 1, 3, 5]), rnd.randrange(1000)
+        opts = f"bs=65536,bc={rnd.randrange(2)},cc={rnd.randrange(2)},lvl={rnd.choice([0, 0, 512, 2048])}"
+        members = []
+        for conc in [1, 2, 4, 0]:
+            # one Write
+            members.append(f"W -1 A:{opts},conc={conc} w:{kind}.{seed}.{total} c")
+        # chunked writes of the same content cannot use data tokens (different seeds give different bytes):
+        # ReadFrom with fragmentation delivers the same bytes through another path
+        for conc, chunk in [(1, 1000), (4, 7), (2, 65536)]:
+            members.append(f"W -1 A:{opts},conc={conc} rf:{kind}.{seed}.{total}:{chunk}:-1:{rnd.randrange(2)} c")
+        groups.append((len(cases), len(members), total)); cases += members
+    impl, _ = run.run_impl("asm", cases, "c14g", env_extra={"VERIF_SCHED": str(run.seed + 21)})
+    bad = 0
+    for start, k, total in groups:
+        sums = []
+        for i in range(start, start + k):
+            parts = impl[i].split(" ; ")
+            sums.append(parts[1].split(",")[2:4] if len(parts) > 1 else ["?"])
+        run.cov["evaluations"] += k
+        # an input that is a multiple of the block size ends with an empty block when it comes through ReadFrom:
+        # compare the Write members among themselves and the ReadFrom members among themselves
+        for grp in (range(0, 4), range(4, k)):
+            ref = sums[grp[0]]
+            for j in grp:
+                if sums[j] != ref:
+                    bad += 1
+                    run.viol.append(Violation("O", "same stream and options, different frame bytes (concurrency / chunking / schedule dependence)",
+                                              case=cases[start + j], impl=str(sums[j]), expected=str(ref) + " as for: " + cases[start + grp[0]]))
+    run.say(f"C14: {len(groups)} groups ({len(cases)} sessions) compared for byte-identical frames: {bad} differences")
+
+def x_c08_race(run):
+    """the same concurrent sessions through a harness built with the race detector"""
+    import os, subprocess
+    from .common import Violation, sh, HARN, BIN, GOENV
+    racebin = os.path.join(BIN, "vh-race")
+    rc, o, e = sh(["go", "build", "-race", "-tags", "verif", "-o", racebin, "."], cwd=HARN, env=GOENV)
+    if rc != 0:
+        run.say("race build failed (skipped):", e[-300:]); return
+    cases = run.gen_cases("conc", run.tier, run.seed + 3)
+    if run.tier == "quick": cases = cases[:60] + cases[-40:]
+    impl, _ = run.run_impl("asm", cases, "race", env_extra={"VERIF_SCHED": str(run.seed + 11)}, binary=racebin)
+    n = run.last_stderr.count("WARNING: DATA RACE")
+    run.cov["evaluations"] += len(cases)
+    run.cov["hist"]["race-detector-sessions"] = len(cases)
+    if n:
+        first = run.last_stderr[run.last_stderr.index("WARNING: DATA RACE"):][:1500]
+        frames = [l.strip() for l in first.splitlines() if "pierrec/lz4" in l][:6]
+        run.viol.append(Violation("O", f"the race detector reports {n} data race(s) in the pipelines", case="(race build) " + " | ".join(cases[:1])[:300],
+                                  impl=" <- ".join(frames)[:600], expected="no data race"))
+    for c, il in zip(cases, impl):
+        if HANGS.search(il) or "GOROUTINE-LEAK" in il:
+            run.viol.append(Violation("O", "hang / leak under the race build", case=c, impl=il[-300:]))
+    run.say(f"C08: {len(cases)} sessions under -race: {n} race report(s)")
+
+j_c08 = j_and(j_orc("trace", "frame", "accept"),
+              j_notes(r"GOROUTINE-LEAK\S*|ROUNDTRIP-FAIL\S*|WRONG-CONTENT|NOT-PREFIX|TRUNC-ACCEPTED|EXPECTED-\S+|SECOND-CLOSE-EMITS|HANG\S*",
+                      "concurrent pipeline misbehaves", "ordered, complete, no hang, no leaked goroutine, valid event trace"))
 
 def x_c20(run):
     from .c20 import x_c20 as f
     f(run)
 
+SCHED = {"VERIF_SCHED": "1"}
 PROPS = {
+    "C08": dict(runs=[FW("conc", judge=j_c08, env=SCHED), FR("frmut", judge=j_c08, env={"VERIF_SCHED": "2"}), FW("fwfail", judge=j_c08, env={"VERIF_SCHED": "3"})],
+                extra=[x_c08_race], theorems=T_C08),
     "C20": dict(runs=[], extra=[x_c20], theorems=[],
                 rule="each case = (flag set, generated file, mode, file or stdin/stdout); every case is non-trivial; distinct = distinct case description"),
     "C02": dict(runs=[FW("fw", judge=j_c02w), FR("fr", judge=j_c02r)], theorems=T("C09full", "c09_writer_all", ns="C09")),
@@ -217,5 +299,6 @@ PROPS = {
     "C12": dict(runs=[dict(DEC_ASM, judge=j_c12), dict(DEC_GO, judge=j_c12)], extra=[x_c12],
                 theorems=T("C04go", "c04_go_partial") + T("C03asm", "c04_asm_partial")),
     "C13": dict(runs=[dict(XXH, judge=j_c13)], theorems=T("C13", "oneshot", "stream", "stream_reset")),
-    "C14": dict(runs=[dict(CMP, judge=j_c14b)], theorems=[]),
+    "C14": dict(runs=[dict(CMP, judge=j_c14b), FW("conc", judge=j_c08, env={"VERIF_SCHED": "4"}), FW("fw", judge=j_c02w, env={"VERIF_SCHED": "5"})],
+                extra=[x_c14_groups], theorems=[]),
 }
